@@ -19,18 +19,6 @@ import (
 	"verif.local/vlib/rep"
 )
 
-type vfAns struct {
-	code int
-	ct   string
-	hash uint64
-	n    int
-}
-
-func vfAnswer(s *Server, q vfReq) vfAns {
-	r := vfGet(s, q.URL)
-	return vfAns{r.Code, r.Hdr.Get("Content-Type"), vfHash(r.Body), len(r.Body)}
-}
-
 func vfCopyTree(src, dst string) error {
 	return filepath.Walk(src, func(p string, info os.FileInfo, err error) error {
 		if err != nil {
